@@ -732,3 +732,233 @@ Proof.
   - apply map_fields_st_type.
   - apply fields_rel_refl.
 Qed.
+
+(* ---- the key of a field: the two sites read the tag through a reader ([set_fields_k],
+        [map_fields_k]); round trip needs the two readers to agree, and /repo's do ---- *)
+
+(* does a site reading through [tr] recurse into this field? *)
+Lemma set_fields_k_step tr q name tag e v rest :
+  set_fields_k tr q (FCons name tag e v rest) =
+  set_fields_k tr
+    (if recurses (tr tag) v
+     then match v with FStruct sub => set_fields_k tr q sub | _ => q end
+     else vappend_all q (eff_name name (tr tag)) (fmt_field (fun es => es) v)) rest.
+Proof. cbn [set_fields_k]. destruct (tr tag); destruct v; reflexivity. Qed.
+
+Lemma map_fields_k_step tr form name tag v rest :
+  map_fields_k tr form (FCons name tag true v rest) =
+  let continue := fun v' => omap (FCons name tag true v') (map_fields_k tr form rest) in
+  if recurses (tr tag) v
+  then match v with
+       | FStruct sub => obind (map_fields_k tr form sub) (fun sub' => continue (FStruct sub'))
+       | _ => continue v
+       end
+  else match vget form (eff_name name (tr tag)) with
+       | None => continue v
+       | Some vals => obind (set_field_gen (Ok []) v vals) continue
+       end.
+Proof. cbn [map_fields_k negb]. destruct (tr tag); destruct v; reflexivity. Qed.
+
+(* the encoder reading through [tr] is the encoder on the struct as [tr] shows it *)
+Lemma set_fields_k_retag tr fs : forall q, set_fields_k tr q fs = set_fields q (retag tr fs).
+Proof.
+  induction fs as [|name tag e v rest IHsub IHrest] using fields_induction; intros q.
+  - reflexivity.
+  - rewrite set_fields_k_step. cbn [retag]. unfold set_fields.
+    destruct (recurses (tr tag) v) eqn:R.
+    + apply recurses_true in R as [Ht [sub ->]]. rewrite Ht.
+      cbn [set_fields_gen]. fold (set_fields q (retag tr sub)).
+      rewrite <- (IHsub sub eq_refl q). apply IHrest.
+    + rewrite set_fields_plain.
+      * rewrite IHrest. destruct v; reflexivity.
+      * destruct (tr tag); destruct v; try reflexivity; discriminate R.
+Qed.
+
+(* the reader of /repo: the functions with an explicit reader are the functions of the model *)
+Lemma set_fields_k_whole fs : forall q, set_fields_k whole_tag q fs = set_fields q fs.
+Proof.
+  induction fs as [|name tag e v rest IHsub IHrest] using fields_induction; intros q.
+  - reflexivity.
+  - cbn [set_fields_k]. change (whole_tag tag) with tag. unfold set_fields. cbn [set_fields_gen].
+    destruct tag; destruct v; try (apply IHrest).
+    fold (set_fields q fs). rewrite (IHsub fs eq_refl q). apply IHrest.
+Qed.
+
+Lemma map_fields_k_whole form fs : map_fields_k whole_tag form fs = map_fields form fs.
+Proof.
+  unfold map_fields.
+  induction fs as [|name tag e v rest IHsub IHrest] using fields_induction.
+  - reflexivity.
+  - cbn [map_fields_k map_fields_gen]. change (whole_tag tag) with tag. rewrite IHrest.
+    destruct (negb e); [reflexivity|].
+    destruct tag; destruct v; try reflexivity.
+    rewrite (IHsub fs eq_refl). reflexivity.
+Qed.
+
+Lemma form_sites_whole_tag_lemma fs data :
+  form_marshal (SStruct fs) = Ok (form_marshal_struct_k whole_tag fs) /\
+  form_unmarshal data (TStruct fs) = omap RStruct (form_unmarshal_struct_k whole_tag data fs).
+Proof.
+  unfold form_marshal, form_marshal_gen, form_marshal_struct_k, form_unmarshal, form_unmarshal_gen,
+    form_unmarshal_struct_k.
+  rewrite set_fields_k_whole. split; [reflexivity|].
+  destruct (parse_query data); [|reflexivity]. rewrite map_fields_k_whole. reflexivity.
+Qed.
+
+Lemma retag_agree tr1 tr2 fs : tags_agree tr1 tr2 fs = true -> retag tr1 fs = retag tr2 fs.
+Proof.
+  induction fs as [|name tag e v rest IHsub IHrest] using fields_induction; intros H.
+  - reflexivity.
+  - cbn [tags_agree] in H. apply andb_true_iff in H as [H Hrest].
+    apply andb_true_iff in H as [Ht Hv]. apply bytes_eqb_eq in Ht.
+    cbn [retag]. rewrite Ht, (IHrest Hrest). destruct v; try reflexivity.
+    rewrite (IHsub fs eq_refl Hv). reflexivity.
+Qed.
+
+Lemma tags_agree_refl tr fs : tags_agree tr tr fs = true.
+Proof.
+  induction fs as [|name tag e v rest IHsub IHrest] using fields_induction; [reflexivity|].
+  cbn [tags_agree]. rewrite bytes_eqb_refl, IHrest. destruct v; try reflexivity.
+  rewrite (IHsub fs eq_refl). reflexivity.
+Qed.
+
+(* the decoder reading through [tr], on the zero value, given what the encoder wrote under the
+   keys of the struct as [tr] shows it *)
+Lemma map_fields_k_roundtrip tr fs : forall form,
+  fields_ok (retag tr fs) = true -> agrees form (flat (retag tr fs)) ->
+  map_fields_k tr form (zero_fields fs) = Ok fs.
+Proof.
+  induction fs as [|name tag e v rest IHsub IHrest] using fields_induction; intros form Hok Hag.
+  - reflexivity.
+  - cbn [retag fields_ok] in Hok. apply andb_true_iff in Hok as [Hok Hrest].
+    apply andb_true_iff in Hok as [He Hv]. subst e.
+    cbn [zero_fields]. rewrite map_fields_k_step. cbn zeta.
+    destruct (recurses (tr tag) v) eqn:R.
+    + apply recurses_true in R as [Ht [sub ->]].
+      cbn [retag] in Hag. rewrite Ht in Hag, Hv. cbn [flat] in Hag.
+      apply agrees_app in Hag as [Hag1 Hag2].
+      cbn [recurses]. rewrite Ht.
+      rewrite (IHsub sub eq_refl form Hv Hag1). cbn [obind].
+      rewrite (IHrest form Hrest Hag2). reflexivity.
+    + assert (Rz : recurses (tr tag)
+                     (match v with
+                      | FLeaf l => FLeaf (leaf_zero l)
+                      | FSlice p _ => FSlice p []
+                      | FArray p es => FArray p (map leaf_zero es)
+                      | FStruct sub => FStruct (zero_fields sub)
+                      end) = false).
+      { destruct (tr tag); destruct v; try reflexivity; discriminate R. }
+      rewrite Rz.
+      assert (Hv' : match v with
+                    | FLeaf l => scalar_ok l = true
+                    | FSlice p es => forallb (fun e => scalar_ok e && same_kind p e) es = true
+                    | FArray _ es => forallb scalar_ok es = true
+                    | FStruct _ => False
+                    end).
+      { destruct v; try exact Hv. destruct (tr tag); [discriminate R | discriminate Hv]. }
+      assert (Hflat : flat (retag tr (FCons name tag true v rest)) =
+                      (eff_name name (tr tag), fmt_field (fun es => es) v) :: flat (retag tr rest)).
+      { cbn [retag]. rewrite flat_plain.
+        - destruct v; reflexivity.
+        - destruct (tr tag); destruct v; try reflexivity; try discriminate R. }
+      rewrite Hflat in Hag.
+      assert (Hkey : vget form (eff_name name (tr tag)) = nonempty_of (Some (fmt_field (fun es => es) v))).
+      { apply Hag. left. reflexivity. }
+      assert (Hag2 : agrees form (flat (retag tr rest))).
+      { intros k vs Hin. apply Hag. right. exact Hin. }
+      pose proof (set_field_roundtrip (Ok []) v Hv') as Hf. cbn zeta in Hf.
+      rewrite Hkey.
+      destruct (nonempty_of (Some (fmt_field (fun es => es) v))) as [vals|].
+      * rewrite Hf. cbn [obind]. rewrite (IHrest form Hrest Hag2). reflexivity.
+      * rewrite Hf. rewrite (IHrest form Hrest Hag2). reflexivity.
+Qed.
+
+(* Round trip for EVERY pair of tag readers that agree on the struct's tags, on every struct
+   that is well formed as the readers show it. *)
+Lemma form_key_agreement_roundtrip_lemma tr_enc tr_dec fs :
+  tags_agree tr_enc tr_dec fs = true ->
+  wf_struct (retag tr_enc fs) = true ->
+  form_unmarshal_struct_k tr_dec (form_marshal_struct_k tr_enc fs) (zero_fields fs) = Ok fs.
+Proof.
+  intros Hag Hwf. unfold wf_struct in Hwf. apply andb_true_iff in Hwf as [Hok Hnd].
+  apply nodupb_NoDup in Hnd.
+  destruct (encode_parse_agrees (retag tr_enc fs) Hnd) as (form & Hp & Hagr).
+  unfold form_unmarshal_struct_k, form_marshal_struct_k. rewrite set_fields_k_retag, Hp.
+  rewrite (retag_agree _ _ _ Hag) in Hok, Hagr.
+  apply map_fields_k_roundtrip; assumption.
+Qed.
+
+(* the instance of /repo: both sites read the whole tag, so a tag may contain anything, commas
+   included; well-formedness is that of the struct as written *)
+Lemma retag_whole fs : retag whole_tag fs = fs.
+Proof.
+  induction fs as [|name tag e v rest IHsub IHrest] using fields_induction; [reflexivity|].
+  cbn [retag]. change (whole_tag tag) with tag. rewrite IHrest. destruct v; try reflexivity.
+  rewrite (IHsub fs eq_refl). reflexivity.
+Qed.
+
+Lemma form_whole_tag_roundtrip_lemma fs :
+  wf_struct fs = true ->
+  form_unmarshal_struct_k whole_tag (form_marshal_struct_k whole_tag fs) (zero_fields fs) = Ok fs.
+Proof.
+  intros H. apply form_key_agreement_roundtrip_lemma; [apply tags_agree_refl|].
+  rewrite retag_whole. exact H.
+Qed.
+
+(* Agreement is necessary: a single scalar field, the encoder writing it under one key and the
+   decoder looking under another: the decode succeeds and the field is still zero, whatever
+   value was encoded. *)
+Lemma form_key_disagreement_lemma tr_enc tr_dec name tag l :
+  eff_name name (tr_enc tag) <> eff_name name (tr_dec tag) ->
+  let fs := FCons name tag true (FLeaf l) FNil in
+  form_unmarshal_struct_k tr_dec (form_marshal_struct_k tr_enc fs) (zero_fields fs)
+  = Ok (zero_fields fs).
+Proof.
+  intros Hne fs. unfold form_unmarshal_struct_k, form_marshal_struct_k.
+  subst fs. rewrite set_fields_k_step.
+  assert (R : forall t x, recurses t (FLeaf x) = false) by (intros t x; destruct t; reflexivity).
+  rewrite R. cbn [set_fields_k].
+  set (k1 := eff_name name (tr_enc tag)) in *. set (k2 := eff_name name (tr_dec tag)) in *.
+  destruct (values_roundtrip_lemma (vappend_all [] k1 (fmt_field (fun es => es) (FLeaf l))))
+    as (form & Hp & Hget).
+  { cbn. constructor; [intros [] | constructor]. }
+  rewrite Hp. cbn [zero_fields]. rewrite map_fields_k_step. cbn zeta. rewrite R.
+  fold k2. rewrite Hget. unfold vappend_all. cbn [vget vset].
+  assert (E : bytes_eqb k1 k2 = false) by (apply bytes_eqb_neq; exact Hne).
+  rewrite E. cbn [nonempty_of map_fields_k omap]. reflexivity.
+Qed.
+
+(* the variant in which only the encoder cuts the tag at the first comma *)
+Definition witness_comma : fields :=
+  FCons (str "Name") (str "name,omitempty") true (FLeaf (LStr (str "x")))
+  (FCons (str "Pair") (str "pair,string") true (FArray (LUint W64 0) [LUint W64 18446744073709551615; LUint W64 7])
+  (FCons (str "Tags") (str ",omitempty") true (FSlice (LStr []) [LStr (str "b"); LStr []; LStr (str "c,d")])
+  (FCons (str "Inner") [] true
+     (FStruct (FCons (str "Zip") (str "zip,omitempty") true (FSlice (LInt W32 0) [LInt W32 (-2147483648); LInt W32 2147483647]) FNil))
+   FNil))).
+
+Lemma form_comma_cut_witness :
+  wf_struct witness_comma = true /\ wf_struct (retag cut_comma witness_comma) = true /\
+  form_marshal_struct_k whole_tag witness_comma
+    = str "%2Comitempty=b&%2Comitempty=&%2Comitempty=c%2Cd&name%2Comitempty=x&pair%2Cstring=18446744073709551615&pair%2Cstring=7&zip%2Comitempty=-2147483648&zip%2Comitempty=2147483647" /\
+  form_marshal_struct_k cut_comma witness_comma
+    = str "Tags=b&Tags=&Tags=c%2Cd&name=x&pair=18446744073709551615&pair=7&zip=-2147483648&zip=2147483647" /\
+  form_unmarshal_struct_k whole_tag (form_marshal_struct_k cut_comma witness_comma) (zero_fields witness_comma)
+    = Ok (zero_fields witness_comma).
+Proof. vm_compute. repeat split. Qed.
+
+Lemma form_encoder_cuts_comma_refuted_lemma :
+  exists fs, wf_struct fs = true /\ wf_struct (retag cut_comma fs) = true /\
+    form_unmarshal_struct_k whole_tag (form_marshal_struct_k cut_comma fs) (zero_fields fs) <> Ok fs.
+Proof.
+  exists witness_comma. destruct form_comma_cut_witness as (H1 & H2 & _ & _ & H5).
+  split; [exact H1|]. split; [exact H2|]. rewrite H5. vm_compute. discriminate.
+Qed.
+
+Lemma form_decoder_cuts_comma_refuted_lemma :
+  exists fs, wf_struct fs = true /\ wf_struct (retag cut_comma fs) = true /\
+    form_unmarshal_struct_k cut_comma (form_marshal_struct_k whole_tag fs) (zero_fields fs) <> Ok fs.
+Proof.
+  exists witness_comma. destruct form_comma_cut_witness as (H1 & H2 & _).
+  split; [exact H1|]. split; [exact H2|]. vm_compute. discriminate.
+Qed.
